@@ -91,16 +91,17 @@ class Part:
         return ("\r\n".join(lines)).encode("utf-8")
 
 
-def encode_form(parts: List[Part], boundary: bytes, preamble: bytes = b"", epilogue: bytes = b"") -> List[Any]:
-    """Items (ints / SInt) of the encoded body."""
+def encode_form(parts: List[Part], boundary: bytes, preamble: bytes = b"", epilogue: bytes = b"", lb: bytes = b"\r\n") -> List[Any]:
+    """Items (ints / SInt) of the encoded body. lb: the line break used for the framing (RFC: CRLF; the decoder also
+    tolerates bare LF / bare CR)."""
     out: List[Any] = list(preamble)
     if preamble:
-        out += list(b"\r\n")
+        out += list(lb)
     for p in parts:
-        out += list(b"--" + boundary + b"\r\n" + p.header_bytes() + b"\r\n\r\n")
+        out += list(b"--" + boundary + lb + p.header_bytes().replace(b"\r\n", lb) + lb + lb)
         out += list(p.content)
-        out += list(b"\r\n")
-    out += list(b"--" + boundary + b"--\r\n" + epilogue)
+        out += list(lb)
+    out += list(b"--" + boundary + b"--" + lb + epilogue)
     return out
 
 
